@@ -16,7 +16,7 @@ Variable lower : str -> str.           (* str.lower(); the ASCII instance is use
 Variable supported : list str.         (* constants.SUPPORTED_SHEET_NAMES *)
 
 Definition is_candidate (key k : str) : bool :=
-  (levenshtein (lower k) key <=? 2) && negb (mem k supported) && negb (starts_with [UNDERSCORE] k).
+  (levenshtein (lower k) key <=? 2) && negb (mem (lower k) supported) && negb (starts_with [UNDERSCORE] k).
 Definition misspelling_candidates (key : str) (keys : list str) : list str := filter (is_candidate key) keys.
 End Misspell.
 
